@@ -52,6 +52,18 @@ def run_impl(case, d):
             snaps.append(s)
         except Exception as e:
             snaps.append({"error": type(e).__name__ + ": " + str(e)[:160]})
+    # history: the measured weights are put back and the path is recomputed once more (what-if, then back to the measurement)
+    if len(snaps) > 1 and "w" in snaps[0]:
+        try:
+            for u, v, w0 in snaps[0]["w"]:
+                g.edges[u, v]["weight"] = w0
+            ok = g.critical_path()
+            s = _snapshot(g)
+            s["ok"] = bool(ok)
+            s["restored"] = True
+            snaps.append(s)
+        except Exception as e:
+            snaps.append({"error": type(e).__name__ + ": " + str(e)[:160]})
     res["snaps"] = snaps
     return res
 
@@ -82,7 +94,7 @@ def compare(case, impl, model):
         return []
     disc = []
     for k, (s, m) in enumerate(zip(impl["snaps"], model)):
-        which = "original weights" if k == 0 else f"re-weighted copy {k}"
+        which = "original weights" if k == 0 else ("measured weights put back after the what-if runs" if s.get("restored") else f"re-weighted copy {k}")
         if "error" in s:
             disc.append(f"{which}: critical_path() raised {s['error']} {w}")
             continue
